@@ -1661,7 +1661,7 @@ func runCase(c jobCase) {
 		return
 	}
 	if c.Intro {
-		runIntro(snk.buf)
+		runIntro(snk.buf, false)
 	}
 	runReads(c, snk.buf, countAdds(c))
 }
